@@ -359,6 +359,34 @@ func workerMain(t *testing.T, p *Prop, tier string) {
 	if maxRuns > 0 {
 		perWorkerMax = (maxRuns + nworkers - 1) / nworkers
 	}
+	if dr := os.Getenv("VERIF_DEBUG_RUN"); dr != "" {
+		// debugging aid: execute one run twice with full event logs and print the first divergence
+		var run int
+		fmt.Sscanf(dr, "%d", &run)
+		seed := mixSeed(base, p.ID, run)
+		avoid := len(known) > 0 && avoidFor(run)
+		o1 := execOnce(t, p, NewSeeded(seed), tier, avoid, true)
+		o2 := execOnce(t, p, NewTape(o1.Tape), tier, avoid, true)
+		fmt.Printf("DEBUG-RUN %d traces %x %x fingerprints-equal=%v sample=%v\n", run, o1.Trace, o2.Trace, o1.Trace == o2.Trace, o1.Sample)
+		for i := 0; i < len(o1.Log) || i < len(o2.Log); i++ {
+			a, b := "<end>", "<end>"
+			if i < len(o1.Log) {
+				a = o1.Log[i]
+			}
+			if i < len(o2.Log) {
+				b = o2.Log[i]
+			}
+			if a != b {
+				lo := i - 15
+				if lo < 0 {
+					lo = 0
+				}
+				fmt.Printf("first divergence at event %d:\n  A: %s\n  B: %s\ncontext: %v\n", i, a, b, o1.Log[lo:i])
+				break
+			}
+		}
+		return
+	}
 	for i := 0; ; i++ {
 		if perWorkerMax > 0 && i >= perWorkerMax {
 			break
